@@ -115,16 +115,22 @@ func canaryProbe(s *bt.Srv, n int) string {
 	return ""
 }
 
-// withWatchdog runs f; a call that does not return within d is reported as a hang.
-func withWatchdog(d time.Duration, f func() *bt.Result) (*bt.Result, bool) {
+// withWatchdog runs f. inline says that f executes the handler on its own stack (a stream with a Send hook): then a
+// goroutine that is blocked in every wait-state sample after d is a hang (false is returned). Otherwise the harness
+// call inside f detects hangs itself (HANG result) and this only bounds a machine too slow to judge.
+func withWatchdog(d time.Duration, inline bool, f func() *bt.Result) (*bt.Result, bool) {
 	ch := make(chan *bt.Result, 1)
-	go func() { ch <- f() }()
-	select {
-	case r := <-ch:
-		return r, true
-	case <-time.After(d):
+	fin := make(chan struct{})
+	var g vt.GoidSet
+	go func() { g.Add(); ch <- f(); close(fin) }()
+	ids := g.IDs
+	if !inline {
+		ids = nil
+	}
+	if mis := vt.Await(fin, d, ids, "probe"); mis != "" {
 		return nil, false
 	}
+	return <-ch, true
 }
 
 func runC20BT(c C20BTCase, ev *vt.Ev) *vt.Failure {
@@ -162,7 +168,7 @@ func runC20BT(c C20BTCase, ev *vt.Ev) *vt.Failure {
 			}
 			what = fmt.Sprintf("ReadRows whose client disconnects at message %d", p.FailSend)
 			at := p.FailSend
-			res, returned = withWatchdog(60*time.Second, func() *bt.Result {
+			res, returned = withWatchdog(60*time.Second, true, func() *bt.Result {
 				return s.ExecCtx(context.Background(), &bt.Op{K: "ReadRows", Table: "big"}, func(n int) error {
 					if n >= at {
 						return fmt.Errorf("rpc error: code = Canceled desc = client went away")
@@ -173,12 +179,12 @@ func runC20BT(c C20BTCase, ev *vt.Ev) *vt.Failure {
 			labels["client-disconnect-during-scan"] = true
 		} else if p.Op != nil {
 			what = "structural " + p.Op.K
-			res, returned = withWatchdog(60*time.Second, func() *bt.Result { return s.Exec(p.Op) })
+			res, returned = withWatchdog(120*time.Second, false, func() *bt.Result { return s.Exec(p.Op) })
 			labels["structural:"+p.Op.K] = true
 		} else {
 			what = "byte-level " + p.RPC
 			ok := true
-			res, returned = withWatchdog(60*time.Second, func() *bt.Result {
+			res, returned = withWatchdog(120*time.Second, false, func() *bt.Result {
 				r, o := s.ExecRaw(context.Background(), p.RPC, p.Raw.B())
 				ok = o
 				return r
@@ -190,7 +196,7 @@ func runC20BT(c C20BTCase, ev *vt.Ev) *vt.Failure {
 			labels["bytes:"+p.RPC] = true
 		}
 		if !returned {
-			return vt.Failf("C20", "probe %d (%s) did not return within 60s (hang)", i, what)
+			return vt.Failf("C20", "probe %d (%s) did not return and its goroutine is blocked (hang)", i, what)
 		}
 		reached++
 		if res.Panic != "" {
@@ -311,11 +317,8 @@ func runC20Mix(c C20MixCase, ev *vt.Ev) *vt.Failure {
 	}
 	done := make(chan struct{})
 	go func() { wg.Wait(); close(done) }()
-	select {
-	case <-done:
-	case <-time.After(180 * time.Second):
-		return vt.Failf("C20", "concurrent mix did not finish within 180s (hang / deadlock)")
-	}
+	// every call goes through s.Exec, which reports a blocked request as a HANG result: this only bounds a slow machine
+	vt.Await(done, 180*time.Second, nil, "concurrent mix")
 	if firstPanic != "" {
 		return vt.Failf("C20", "%s", firstPanic)
 	}
